@@ -257,7 +257,8 @@ PROPS = {
         suites=[dict(name="crash", pkg="./stage/", test="TestVerifCrash", min_lines=30, timeout_quick=900, confirm="crashpoints",
                      oracles=["validated_file_lost_or_misnamed_after_crash", "record_claims_bytes_not_held_after_crash",
                               "delivered_under_lock_name_after_crash", "not_delivered_after_crash_and_resume", "redelivered_after_crash",
-                              "delivered_content_not_validated", "companion_claims_unwritten"])],
+                              "delivered_content_not_validated", "companion_claims_unwritten"]),
+                dict(STAGE_SUITE, oracles=["delivered_content_not_validated", "positive_status_for_another_version"], diffs=["finals", "log"])],
         rule=("crash: for each of 10 (thorough 80) seeded protocol scenarios (1..3 files, 1..3 parts each, shuffled, chains, renames) EVERY durable step "
               "of the whole run - every os.Rename/Remove/Create/WriteFile/MkdirAll in stage/, fileutil/, log/ and every log append, intercepted by generated "
               "instrumentation - is enumerated as a crash point: the world is frozen there, the directory tree copied (crash image), a fresh Stage started "
@@ -280,7 +281,8 @@ PROPS = {
                 dict(name="track", pkg="./client/", test="TestVerifTrack", min_lines=200,
                      oracles=["logged_sent_before_all_bytes_acknowledged", "polled_before_all_bytes_acknowledged"], diffs=["tracker-logged", "tracker-handed"],
                      env_quick={"VERIF_N": 300}, env_thorough={"VERIF_N": 10000}),
-                race_suite(["acknowledged_part_not_on_record", "complete_file_not_delivered"])],
+                race_suite(["acknowledged_part_not_on_record", "complete_file_not_delivered"]),
+                dict(name="chunk", pkg="./client/", test="TestVerifChunk", min_lines=1000, oracles=["send_size_is_not_the_bytes_to_send"], diffs=[])],
         rule=("send: the real startSend / handleSendError / payload.Bin.Split / Remove against a scripted network: exhaustively every failure position of every "
               "payload of 1..5 parts x {partial-content answer with count k, error without count + recovery request answering k after 0..2 failed recovery "
               "requests}, plus seeded scripts of up to 4 consecutive failures on payloads of 1..7 parts with files changing between attempts; the parts of "
@@ -484,3 +486,4 @@ PROPS = {
     ),
 }
 PROPS["C19"]["rule"] += " " + E2E_RULE + " (here: profile reuse with its delayed-deletion variant - the tag has a delete-delay of 8 s: no file may be deleted younger than that)"
+PROPS["C06"]["rule"] += " " + STAGE_RULE + " (here: the histories with restarts - what was staged when the receiver stopped: held files beside a newer version's partial or failed complete body, parts announcing different predecessors, stalled partials)"
